@@ -32,14 +32,11 @@ Definition mk_width (w : Z) : pwidth := if w =? 0 then W32 else if w =? 1 then W
 
 (* the binary32 confidence of a reported bit flip, recomputed from the details the report prints next to it
    (C19's exact Flocq model of BitFlipDetails::confidence); compared with f32::to_bits of the real value *)
-Definition flip_confidence_bits (b : flip) : Z :=
-  C19.Model.confidence_bits
-    {| C19.Model.d_nc := bf_nc b; C19.Model.d_null := bf_null b; C19.Model.d_low := bf_low b;
-       C19.Model.d_nearby := bf_nearby b; C19.Model.d_poison := bf_poison b |}.
+Definition flip_confidence_bits (b : flip) : Z := flip_conf_bits b.
 
 (* the TEXT print_json writes for that confidence (c15_confidence_text: binary32 widened to binary64, shortest decimal that reads
    back, ryu's layout); compared byte for byte with the number in the real compact output *)
-Definition flip_confidence_text (b : flip) : list Z := render_f32 (flip_confidence_bits b).
+Definition flip_confidence_text (b : flip) : list Z := flip_conf_text b.
 (* the judgement of c15_confidence_text on the REAL text against f32::to_bits of the real value *)
 Definition real_confidence_ok (bits : Z) (text : list Z) : bool := conf_text_ok bits text.
 
